@@ -319,6 +319,53 @@ pub fn named() -> SweepProfile {
     }
 }
 
+/// v-mode classes with strings, forwards and inside lookbehind (string pieces, longest-first).
+pub fn vset() -> SweepProfile {
+    let q = |strs: &[&str]| Node::VClass(VClass { negated: false, op: VOp::Union, operands: vec![VOperand::QStrings(strs.iter().map(|s| s.chars().map(|c| c as u32).collect()).collect())] });
+    let unary = vec![Unary::Group, Unary::Look(true, false), Unary::Look(true, true), Unary::Look(false, false), Unary::Quant(0, Some(1), true), Unary::Quant(0, None, true), Unary::Quant(1, None, false)];
+    SweepProfile {
+        profile: Profile {
+            name: "P-vset",
+            leaves: vec![
+                ch('a'),
+                ch('b'),
+                q(&["ab", "a"]),
+                q(&["ab"]),
+                q(&["a", "ba", "bab"]),
+                q(&["ab", ""]),
+                Node::VClass(VClass { negated: false, op: VOp::Union, operands: vec![VOperand::Char('a' as u32), VOperand::QStrings(vec![vec!['b' as u32, 'a' as u32]])] }),
+                Node::VClass(VClass { negated: true, op: VOp::Union, operands: vec![VOperand::Char('a' as u32)] }),
+                Node::Prop(false, "RGI_Emoji_Flag_Sequence".into()),
+                Node::BackRef(1),
+            ],
+            unary,
+            cat: true,
+            alt: true,
+            max_quant_nest: 1,
+        },
+        flags: vec![fl("v"), fl("iv")],
+        alphabet: vec!['a' as u32, 'b' as u32, 'A' as u32, 0x1F1E6, 0x1F1F9],
+        size_quick: 3,
+        size_thorough: 4,
+        hay_quick: 3,
+        hay_thorough: 4,
+    }
+}
+
+/// Duplicate named groups with \k references: few constructors, deep sizes.
+pub fn dupref() -> SweepProfile {
+    let unary = vec![Unary::Named("n"), Unary::Quant(0, None, true), Unary::Quant(0, Some(1), true), Unary::Look(true, false)];
+    SweepProfile {
+        profile: Profile { name: "P-dupref", leaves: vec![ch('a'), ch('b'), Node::NamedRef("n".into()), Node::Empty], unary, cat: true, alt: true, max_quant_nest: 1 },
+        flags: vec![fl(""), fl("i")],
+        alphabet: cps("abA"),
+        size_quick: 7,
+        size_thorough: 8,
+        hay_quick: 3,
+        hay_thorough: 4,
+    }
+}
+
 pub fn mods() -> SweepProfile {
     let f = |s: &str| Flags::parse(s);
     let unary = vec![
@@ -362,9 +409,11 @@ pub fn by_name(name: &str) -> Option<SweepProfile> {
         "lit" => lit(),
         "onechar" => onechar(),
         "named" => named(),
+        "vset" => vset(),
+        "dupref" => dupref(),
         "mods" => mods(),
         _ => return None,
     })
 }
 
-pub const ALL: [&str; 11] = ["core", "capback", "look", "nest", "nestlook", "utf8", "icase", "lit", "onechar", "named", "mods"];
+pub const ALL: [&str; 13] = ["core", "capback", "vset", "dupref", "look", "nest", "nestlook", "utf8", "icase", "lit", "onechar", "named", "mods"];
